@@ -98,9 +98,23 @@ class DispatchStation(VehicleState):
             # there is nothing to plug into (or to queue for) at the end of this trip
             msg = f"station {station.id} does not have charger {self.charger_id}; context: {context}"
             return SimulationStateError(msg), None
+        elif not self._vehicle_can_use_charger(vehicle, station, env):
+            msg = f"vehicle {vehicle.id} of type {vehicle.mechatronics_id} can't use charger {self.charger_id}; context: {context}"
+            return SimulationStateError(msg), None
         else:
             result = VehicleState.apply_new_vehicle_state(sim, self.vehicle_id, self)
             return result
+
+    def _vehicle_can_use_charger(self, vehicle, station, env: Environment) -> bool:
+        """
+        the charger must deliver the vehicle's energy type, otherwise the vehicle could never
+        plug in on arrival (ChargingStation.enter rejects it) and would wait at the station forever
+        """
+        mechatronics = env.mechatronics.get(vehicle.mechatronics_id)
+        charger_err, charger = station.get_charger_instance(self.charger_id)
+        if mechatronics is None or charger_err is not None or charger is None:
+            return False
+        return mechatronics.valid_charger(charger)
 
     def exit(
         self, next_state: VehicleState, sim: SimulationState, env: Environment
